@@ -25,6 +25,10 @@ pub(super) trait SolveDatabase<I: Interner>: Sized {
 
     fn max_size(&self) -> usize;
 
+    /// Called when `should_continue` returned false and an iteration is
+    /// answered with an ambiguous placeholder instead of being solved.
+    fn set_interrupted(&mut self);
+
     fn interner(&self) -> I;
 
     fn db(&self) -> &dyn RustIrDatabase<I>;
@@ -44,6 +48,7 @@ pub(super) trait SolveIteration<I: Interner>: SolveDatabase<I> {
         should_continue: impl std::ops::Fn() -> bool + Clone,
     ) -> Fallible<Solution<I>> {
         if !should_continue() {
+            self.set_interrupted();
             return Ok(Solution::Ambig(Guidance::Unknown));
         }
 
